@@ -393,9 +393,6 @@ func (f *Frame) phiVal(p *ssa.Phi, subst map[*ssa.Phi]T) T {
 
 // resolveLocal finds the SSA value that holds source variable `name` at the given point.
 func (f *Frame) resolveLocal(name string, at *ssa.BasicBlock, atIdx int, phiSubst map[*ssa.Phi]T, env *SpecEnv) (T, bool) {
-	if at == nil {
-		return T{}, false
-	}
 	type cand struct {
 		b   *ssa.BasicBlock
 		idx int
@@ -415,7 +412,7 @@ func (f *Frame) resolveLocal(name string, at *ssa.BasicBlock, atIdx int, phiSubs
 		return best.b.Dominates(c.b)
 	}
 	for _, b := range f.fn.Blocks {
-		if !(b == at || b.Dominates(at)) {
+		if at == nil || !(b == at || b.Dominates(at)) {
 			continue
 		}
 		for i, ins := range b.Instrs {
